@@ -282,7 +282,7 @@ def document_histories(ctx, builds):
     """spec/Document.tla: ownership of str_ / schema_str_ / the tree across Parse, ParseSchema (valid and invalid
     input), move, swap, mutation and destruction of two documents."""
     q = ctx.quick
-    base = "CONSTANTS Docs = {1, 2} TreeSizes = {0, 2} FixSchemaLeak = %s\nSPECIFICATION Spec\nCONSTRAINT Bound\n%sCHECK_DEADLOCK FALSE\n"
+    base = "CONSTANTS Docs = {1, 2} TreeSizes = {0, 2} FixSchemaLeak = %s SlotStringsOwned = TRUE\nSPECIFICATION Spec\nCONSTRAINT Bound\n%sCHECK_DEADLOCK FALSE\n"
     r = ctx.tlc("Document", cfg=base % ("FALSE", "INVARIANT Exact\nINVARIANT NoDangling\n"), tag="MC_Document", timeout=600, workers=4)
     if "is violated" in r["out"] or r["exit"] != 0:
         ctx.add_fail(dict(property="C13", kind="model", sig="model:Document", shape=dict(kind="model"), build="tlc",
@@ -292,13 +292,18 @@ def document_histories(ctx, builds):
     r3 = ctx.tlc("Document", cfg=base % ("TRUE", "INVARIANT NoDangling\n"), tag="MC_Document_naivefix", timeout=600, workers=4)
     ctx.log(f"MC_Document: {r['distinct']} states, Exact/NoDangling hold; NoLeak {'violated (repeated ParseSchema orphans the previous schema buffer: recorded finding)' if leak_in_model else 'holds'}; "
             f"naive repair (free the old buffer) {'makes NoDangling fail' if 'is violated' in r3['out'] else 'is safe'}")
+    r4 = ctx.tlc("Document", cfg=(base % ("FALSE", "INVARIANT NoDangling\n")).replace("SlotStringsOwned = TRUE", "SlotStringsOwned = FALSE"),
+                 tag="MC_Document_slotconst", timeout=600, workers=4)
+    ctx.log(f"MC_Document with slot strings stored as borrowed views of schema_str_ (not the code's design): NoDangling "
+            f"{'violated, as it must be (a deep copy shares the bytes and loses them with the source)' if 'is violated' in r4['out'] else 'NOT violated - the model does not see the hazard'}")
+    ctx.extra["document_model_slotconst_dangles"] = "is violated" in r4["out"]
     ctx.extra["document_model_noleak_violated"] = leak_in_model
     if leak_in_model:
         ctx.add_fail(dict(property="C13", kind="leak-schema-buffer", sig="leak-schema-buffer", shape=dict(kind="leak-schema-buffer"), build="tlc",
                           detail="Document.tla: NoLeak is violated by ParseSchema; ParseSchema (two applications on one document)", case=dict(trace=["parseschema", "parseschema"]),
                           replay=dict(harness="MC_Document_NoLeak")))
     depth = 12 if q else 25
-    cfg = f"CONSTANTS Docs = {{1, 2}} TreeSizes = {{0, 2}} FixSchemaLeak = FALSE Depth = {depth}\nINIT GInit\nNEXT GNext\nINVARIANT EmitBeh\nCHECK_DEADLOCK FALSE\n"
+    cfg = f"CONSTANTS Docs = {{1, 2}} TreeSizes = {{0, 2}} FixSchemaLeak = FALSE SlotStringsOwned = TRUE Depth = {depth}\nINIT GInit\nNEXT GNext\nINVARIANT EmitBeh\nCHECK_DEADLOCK FALSE\n"
     recs = ctx.tlc_emit("Gen_Document", cfg=cfg, simulate=40 if q else 800, depth=depth + 1, workers=8, timeout=1200, xmx="6g")
     rows = []
     for bid, r_ in enumerate(recs):
